@@ -16,20 +16,24 @@
 namespace std { namespace __vstl {
 template <class V> struct node { V v; node* next; template <class... A> node(A&&... a) : v(std::forward<A>(a)...), next(nullptr) {} };
 template <class V, bool Const> struct iter { typedef V value_type; typedef conditional_t<Const, const V&, V&> reference; typedef conditional_t<Const, const V*, V*> pointer; typedef ptrdiff_t difference_type; typedef forward_iterator_tag iterator_category;
-  node<V>* n; iter() : n(nullptr) {} explicit iter(node<V>* p) : n(p) {} iter(const iter<V, false>& o) : n(o.n) {}
-  reference operator*() const { if (!n) vf_fail("UB: dereference of end() iterator"); return n->v; } pointer operator->() const { if (!n) vf_fail("UB: dereference of end() iterator"); return &n->v; }
-  iter& operator++() { if (!n) vf_fail("UB: increment of end() iterator"); n = n->next; return *this; } iter operator++(int) { iter t = *this; ++*this; return t; }
-  template <bool C2> bool operator==(const iter<V, C2>& o) const { return n == o.n; } template <bool C2> bool operator!=(const iter<V, C2>& o) const { return n != o.n; } };
+  /* (node, number of nodes from here to the end): termination tests compare the integer, which the symbolic executor
+   * constant-folds even when the next-pointers are not propagated constants (otherwise every loop over a container unrolls to the unwind limit) */
+  node<V>* n; size_t rem; iter() : n(nullptr), rem(0) {} iter(node<V>* p, size_t r) : n(p), rem(r) {} iter(const iter<V, false>& o) : n(o.n), rem(o.rem) {}
+  reference operator*() const { if (!rem) vf_fail("UB: dereference of end() iterator"); return n->v; } pointer operator->() const { if (!rem) vf_fail("UB: dereference of end() iterator"); return &n->v; }
+  iter& operator++() { if (!rem) vf_fail("UB: increment of end() iterator"); n = n->next; rem--; return *this; } iter operator++(int) { iter t = *this; ++*this; return t; }
+  template <bool C2> bool operator==(const iter<V, C2>& o) const { return rem == o.rem; } template <bool C2> bool operator!=(const iter<V, C2>& o) const { return rem != o.rem; } };
 template <class K, class V, class KeyOf, class Eq, class Less, bool Ordered> class list {
  public: node<V>* h_; size_t n_;
   typedef iter<V, false> iterator; typedef iter<V, true> const_iterator;
   list() : h_(nullptr), n_(0) {} list(const list& o) : h_(nullptr), n_(0) { copy_from(o); } list(list&& o) noexcept : h_(o.h_), n_(o.n_) { o.h_ = nullptr; o.n_ = 0; }
   ~list() { clear(); } list& operator=(const list& o) { if (this != &o) { clear(); copy_from(o); } return *this; } list& operator=(list&& o) noexcept { if (this != &o) { clear(); h_ = o.h_; n_ = o.n_; o.h_ = nullptr; o.n_ = 0; } return *this; }
-  void copy_from(const list& o) { node<V>** t = &h_; for (node<V>* p = o.h_; p; p = p->next) { node<V>* q = new node<V>(p->v); *t = q; t = &q->next; n_++; } }
-  void clear() noexcept { node<V>* p = h_; h_ = nullptr; n_ = 0; while (p) { node<V>* q = p->next; delete p; p = q; } }
-  node<V>* find_node(const K& k) const { for (node<V>* p = h_; p; p = p->next) if (Eq()(KeyOf()(p->v), k)) return p; return nullptr; }
-  node<V>* link(node<V>* q) { if (n_ >= VSTL_MAP_MAX) vf_bound("associative container size"); if constexpr (!Ordered) { q->next = h_; h_ = q; } else { node<V>** t = &h_; while (*t && Less()(KeyOf()((*t)->v), KeyOf()(q->v))) t = &(*t)->next; q->next = *t; *t = q; } n_++; return q; }
-  template <class... A> pair<iterator, bool> emplace(A&&... a) { node<V>* q = new node<V>(std::forward<A>(a)...); if (node<V>* p = find_node(KeyOf()(q->v))) { delete q; return pair<iterator, bool>(iterator(p), false); } return pair<iterator, bool>(iterator(link(q)), true); }
-  iterator erase_node(node<V>* x) { if (!x) vf_fail("UB: erase(end())"); node<V>** t = &h_; while (*t && *t != x) t = &(*t)->next; if (!*t) vf_fail("UB: erase of iterator not in container"); node<V>* nx = x->next; *t = nx; n_--; delete x; return iterator(nx); }
+  void copy_from(const list& o) { node<V>** t = &h_; node<V>* p = o.h_; for (size_t i = 0; i < o.n_; i++, p = p->next) { node<V>* q = new node<V>(p->v); *t = q; t = &q->next; n_++; } }
+  void clear() noexcept { node<V>* p = h_; size_t k = n_; h_ = nullptr; n_ = 0; for (size_t i = 0; i < k; i++) { node<V>* q = p->next; delete p; p = q; } }
+  node<V>* find_node(const K& k, size_t* rem = nullptr) const { node<V>* p = h_; for (size_t i = 0; i < n_; i++, p = p->next) if (Eq()(KeyOf()(p->v), k)) { if (rem) *rem = n_ - i; return p; } if (rem) *rem = 0; return nullptr; }
+  iterator find_it(const K& k) const { size_t r = 0; node<V>* p = find_node(k, &r); return iterator(p, r); }
+  /* returns the new node and (via *rem) its distance to the end */
+  node<V>* link(node<V>* q, size_t* rem) { if (n_ >= VSTL_MAP_MAX) vf_bound("associative container size"); size_t pos = 0; if constexpr (!Ordered) { q->next = h_; h_ = q; } else { node<V>** t = &h_; while (pos < n_ && Less()(KeyOf()((*t)->v), KeyOf()(q->v))) { t = &(*t)->next; pos++; } q->next = *t; *t = q; } n_++; *rem = n_ - pos; return q; }
+  template <class... A> pair<iterator, bool> emplace(A&&... a) { node<V>* q = new node<V>(std::forward<A>(a)...); size_t r = 0; if (node<V>* p = find_node(KeyOf()(q->v), &r)) { delete q; return pair<iterator, bool>(iterator(p, r), false); } node<V>* x = link(q, &r); return pair<iterator, bool>(iterator(x, r), true); }
+  iterator erase_node(node<V>* x) { if (!x) vf_fail("UB: erase(end())"); node<V>** t = &h_; size_t pos = 0; while (pos < n_ && *t != x) { t = &(*t)->next; pos++; } if (pos >= n_) vf_fail("UB: erase of iterator not in container"); node<V>* nx = x->next; *t = nx; n_--; delete x; return iterator(nx, n_ - pos); }
   size_t erase_key(const K& k) { node<V>* p = find_node(k); if (!p) return 0; erase_node(p); return 1; }
 }; } }
